@@ -64,7 +64,10 @@ func verifValue(rng *rand.Rand, depth int) any {
 var verifKeys = []string{"id", "type", "name", "preferredUsername", "summary", "content", "mediaType", "published", "updated", "inReplyTo", "url", "attributedTo", "audience",
 	"attachment", "replies", "comments", "outbox", "icon", "image", "actor", "object", "items", "orderedItems", "first", "next", "totalItems", "href", "height", "width", "rel"}
 var verifTypes = []string{"Note", "Article", "Video", "Image", "Audio", "Page", "Document", "Person", "Group", "Service", "Application", "Organization", "Create", "Announce", "Like", "Dislike",
-	"Collection", "OrderedCollection", "CollectionPage", "OrderedCollectionPage", "Link", "Tombstone", "Mention", "", "note"}
+	"Collection", "OrderedCollection", "CollectionPage", "OrderedCollectionPage", "Link", "Tombstone", "Mention", "", "note",
+	/* the rest of the ActivityStreams vocabulary */
+	"Update", "Delete", "Follow", "Add", "Remove", "Undo", "Accept", "Reject", "Block", "Flag", "Move", "Question", "Event", "Place", "Profile", "Relationship",
+	"Arrive", "Ignore", "Invite", "Join", "Leave", "Listen", "Offer", "Read", "TentativeAccept", "TentativeReject", "Travel", "View", "Activity", "IntransitiveActivity", "Object"}
 
 func verifMarkupBody(rng *rand.Rand) (string, string) {
 	switch rng.Intn(12) {
@@ -166,7 +169,7 @@ func verifExercise(item any) int {
 		}
 		return size
 	}
-	for _, w := range []int{-10, -1, 0, 1, 2, 3, 5, 9, 23, 80, 81, 132, 300} {
+	for _, w := range []int{-10, -1, 0, 1, 2, 3, 5, 9, 23, 80, 81, 132, 300, 1004} {
 		w := w
 		size += verifTimed(fmt.Sprintf("String(%d)", w), func() int { return len(t.String(w)) })
 		size += verifTimed(fmt.Sprintf("Preview(%d)", w), func() int { return len(t.Preview(w)) })
@@ -233,7 +236,9 @@ func verifStressBodies() [][2]string {
 	bodies := [][2]string{}
 	inner := "<i>" + strings.Repeat("y", 120) + "</i> tail"
 	for _, unit := range []string{"<b>", "<b><i>", "<b><i><u><s><code><mark>", "<i><a href=\"https://x.example/y\">", "<blockquote>", "<blockquote>a<ul><li>",
-		"<blockquote><h3><ul><li><b><code>", "<ul><li>x<ul><li>y", "<h2><blockquote>q", "<div><ul><li><blockquote>z ", "<pre>", "<h6>", "<pre><code>", "<span>", "<unknownx>"} {
+		"<blockquote><h3><ul><li><b><code>", "<ul><li>x<ul><li>y", "<h2><blockquote>q", "<div><ul><li><blockquote>z ", "<pre>", "<h6>", "<pre><code>", "<span>", "<unknownx>",
+		/* each heading level on its own (a block between them keeps the parser from closing them), lists, paragraphs */
+		"<h1><div>", "<h2><div>", "<h3><div>", "<h4><div>", "<h5><div>", "<h6><div>", "<ul><li>", "<p><div>", "<li>", "<div>"} {
 		depth := 6000 / len(unit)
 		if depth > 1100 {
 			depth = 1100
@@ -250,7 +255,7 @@ func verifStressBodies() [][2]string {
 }
 
 func verifSystematicCount() int {
-	n := len(verifStressBodies())
+	n := len(verifStressBodies()) + len(verifSkeletons)*len(verifTypes)
 	for _, sk := range verifSkeletons {
 		n += (len(sk) + 3) * len(verifDeviations)
 	}
@@ -267,6 +272,19 @@ func verifSystematic(index int) (map[string]any, int, string) {
 		return o, 0, "stress body " + verifkit.Clip(stress[index][0], 50) + fmt.Sprintf(" (%d bytes, %s)", len(stress[index][0]), stress[index][1])
 	} else {
 		index -= len(stress)
+	}
+	/* every skeleton under every type name of the vocabulary, through the constructor of its own kind and
+	   (by the caller's choice) through New */
+	if index < len(verifSkeletons)*len(verifTypes) {
+		kind, typeName := index/len(verifTypes), verifTypes[index%len(verifTypes)]
+		o := map[string]any{}
+		for k, v := range verifSkeletons[kind] {
+			o[k] = v
+		}
+		o["type"] = typeName
+		return o, kind, fmt.Sprintf("skeleton %d, type := %q", kind, typeName)
+	} else {
+		index -= len(verifSkeletons) * len(verifTypes)
 	}
 	extraKeys := []string{"height", "width", "href"}
 	for kind, sk := range verifSkeletons {
@@ -309,6 +327,7 @@ func TestVerifRender(t *testing.T) {
 	}
 	out := verifkit.Out()
 	defer out.Close()
+	out.Emit(verifkit.M{"ev": "meta", "systematic": verifSystematicCount()})
 	jtp.VerifSetTimeout(500 * time.Millisecond)
 	base := verifkit.Seed()
 	for i := in.From; i < in.Count && (in.Only == 0 || i < in.From+in.Only); i++ {
